@@ -125,6 +125,29 @@ def has_mixed_nested_op(d, any_op=False):
     return items(d.items, False)
 
 
+def has_mixed_container_then_more(d):
+    """a key-value list inside an array where a container value is followed by further entries: write_end of
+    the nested container resets MixedMode, so the rest of the list is written (and reported by
+    expecting_key()) as if the array were an object"""
+    D = docgen
+
+    def items(its):
+        return any((isinstance(it, D.Field) and val(it.value)) or (isinstance(it, D.Param) and not isinstance(it.body, D.S) and items(it.body)) for it in its)
+
+    def val(v):
+        if isinstance(v, D.Hdr):
+            return val(v.value)
+        if isinstance(v, D.Obj):
+            return items(v.items)
+        if isinstance(v, D.Arr):
+            for i, e in enumerate(v.mixed):
+                if isinstance(e, D.Field) and isinstance(e.value, (D.Obj, D.Arr, D.Hdr)) and i + 1 < len(v.mixed):
+                    return True
+            return any(val(e) for e in v.elems if not isinstance(e, D.Ghost)) or any(val(e.value) for e in v.mixed if isinstance(e, D.Field))
+        return False
+    return items(d.items)
+
+
 def parse_rt(line):
     d = {}
     for part in line.split("|"):
